@@ -135,6 +135,8 @@ impl<M: GuestMemory> GuestMemoryExclusiveGuard<'_, M> {
     /// with the new memory map, `map`.  The lock is then dropped since this
     /// method consumes the guard.
     pub fn replace(self, map: M) {
+        #[cfg(vm_memory_verif)]
+        let _h4 = crate::verif_hooks::ReplaceScope::new(&self.parent.inner.1);
         self.parent.inner.0.store(Arc::new(map))
     }
 }
